@@ -66,6 +66,7 @@ type Scenario struct {
 	NoRun      bool          // do not call Run() (pure API scenarios)
 	Namespaces []string      // namespace admitter (as `-n`)
 	Snap       bool          // take a GetProcessesState snapshot at every quiescent choice point
+	EnvCost    int           // cost of a non-default environment event at quiescence (0 = all orders explored)
 	AuxAsEnv   bool          // the completion of an auxiliary command is an environment event (else a thread step)
 	Setup      func(w *World)
 	Check      func(w *World) []Violation
@@ -654,10 +655,14 @@ func (w *World) control(prefix []int) {
 		}
 		envCost := 1
 		if quiescent {
-			envCost = 0
+			envCost = sc.EnvCost
 		}
-		for _, e := range evs {
-			add(e.label, envCost)
+		for i, e := range evs {
+			c := envCost
+			if quiescent && i == 0 {
+				c = 0 // the default choice is always free
+			}
+			add(e.label, c)
 		}
 		for _, t := range envThr {
 			add(t.Pending().Kind+":"+t.Pending().Tag, envCost)
